@@ -18,6 +18,7 @@ RULE = (
     "returns and never when it fails, so waiting instead of cancelling is a detected hang; non-trivial = a spawned task "
     "still pending when the body ends, a grandchild, or a spawn from a nested sync block; distinct = distinct program"
 )
+RULE += "; body outcomes include a CancelledError of the body's own (no cancel request pending); disposables may spawn a task while entering"
 LEVEL_TEXT = (
     "At the first harness instruction after every async scope block (any exit path) every task spawned into it, "
     "transitively, must be done; leaving must terminate (virtual loop quiescence = hang, decided exactly); outside any "
